@@ -112,9 +112,11 @@ func run(c *core.Ctx) {
 			for idx := -1; idx <= n+1; idx++ {
 				exec(c, Case{Fn: "Insert", Arr: a, Len: n, Index: idx, Vals: []int{1000}})
 				exec(c, Case{Fn: "Remove", Arr: a, Len: n, Index: idx})
-				for k := 0; k <= maxK; k++ {
-					exec(c, Case{Fn: "InsertSlice", Arr: a, Len: n, Index: idx, Vals: values(k)})
-					exec(c, Case{Fn: "RemoveSlice", Arr: a, Len: n, Index: idx, K: k})
+				for k := -2; k <= maxK; k++ {
+					if k >= 0 {
+						exec(c, Case{Fn: "InsertSlice", Arr: a, Len: n, Index: idx, Vals: values(k)})
+					}
+					exec(c, Case{Fn: "RemoveSlice", Arr: a, Len: n, Index: idx, K: k}) // k < 0: outside the property, model comparison only
 				}
 			}
 			exec(c, Case{Fn: "Fill", Arr: a, Len: n, Vals: []int{77}})
@@ -143,7 +145,7 @@ func run(c *core.Ctx) {
 	}
 	exec(c, Case{Fn: "Repeat", K: -1, Vals: []int{9}})
 	c.Exhaustive = true
-	c.Note(fmt.Sprintf("exhaustive: len 0..%d x spare capacity 0..%d x index -1..len+1 x inserted/removed length 0..%d for Insert, InsertSlice, Remove, RemoveSlice (distinct elements, sentinel garbage in the spare capacity); Fill, Reverse, Clone, Grow n=-1..%d, Concat on the same slices; Fill and Repeat for every length 0..%d; plus random",
+	c.Note(fmt.Sprintf("exhaustive: len 0..%d x spare capacity 0..%d x index -1..len+1 x inserted length 0..%d / removed length -2..same for Insert, InsertSlice, Remove, RemoveSlice (distinct elements, sentinel garbage in the spare capacity); Fill, Reverse, Clone, Grow n=-1..%d, Concat on the same slices; Fill and Repeat for every length 0..%d; plus random",
 		maxLen, maxSpare, maxK, maxK+1, maxFill))
 
 	heavy(c)
@@ -414,7 +416,18 @@ func execOpt(c *core.Ctx, cs Case, emit bool) {
 		}
 		k := len(ins)
 		if cs.Index < 0 || cs.Index > n {
+			// invalid position: must panic. The property does not fix the slice's state afterwards (the code
+			// appends before it panics); what it is, is recorded only.
 			c.Count("invalid_position")
+			if kind == "" {
+				fail(fmt.Sprintf("%s at invalid position %d (len %d) did not panic", cs.Fn, cs.Index, n))
+			} else if obsLen == n+k && core.Eq(vis[:n], in) && core.Eq(vis[n:], ins) {
+				c.Count("after_invalid_insert_appended")
+			} else if obsLen == n && core.Eq(vis, in) {
+				c.Count("after_invalid_insert_unchanged")
+			} else {
+				c.Count("after_invalid_insert_other")
+			}
 			break
 		}
 		inPlace = n+k <= capacity
@@ -429,7 +442,14 @@ func execOpt(c *core.Ctx, cs Case, emit bool) {
 		} else if same(r, old) && !core.Eq(old[n+k:], cs.Arr[n+k:]) {
 			fail("spare capacity beyond the inserted elements was modified")
 		} else if !same(r, old) && !core.Eq(old, cs.Arr) {
-			fail("old backing array modified although the slice moved to a new array")
+			c.Count("unspecified_old_array_written_after_move") // not fixed by the property
+		}
+		if kind == "" {
+			if same(r, old) {
+				c.Count("insert_stayed_on_array")
+			} else {
+				c.Count("insert_moved_to_new_array")
+			}
 		}
 		if !core.Eq(vals, cs.Vals) {
 			fail("inserted values slice was modified")
@@ -439,8 +459,18 @@ func execOpt(c *core.Ctx, cs Case, emit bool) {
 		if cs.Fn == "Remove" {
 			k = 1
 		}
-		if cs.Index < 0 || k < 0 || cs.Index+k > n {
+		if k < 0 {
+			c.Count("negative_length") // outside the property; compared with the model only
+			break
+		}
+		if cs.Index < 0 || cs.Index+k > n {
+			// invalid position / length: must panic and leave the slice as it was
 			c.Count("invalid_position")
+			if kind == "" {
+				fail(fmt.Sprintf("%s at invalid position %d length %d (len %d) did not panic", cs.Fn, cs.Index, k, n))
+			} else if obsLen != n || !core.Eq(vis, in) {
+				fail(fmt.Sprintf("%s at invalid position %d length %d panicked but changed the slice", cs.Fn, cs.Index, k))
+			}
 			break
 		}
 		inPlace = true
@@ -452,10 +482,12 @@ func execOpt(c *core.Ctx, cs Case, emit bool) {
 			fail("panic at a valid position")
 		} else if !core.Eq(vis, want) {
 			fail(fmt.Sprintf("%s at %d length %d: contents are not the splice %v", cs.Fn, cs.Index, k, want))
-		} else if same(r, old) && !core.Eq(old[n-k:], cs.Arr[n-k:]) {
-			fail("elements beyond the moved ones were modified")
+		} else if same(r, old) && !core.Eq(old[n:], cs.Arr[n:]) {
+			fail("cells beyond the original length were modified")
+		} else if same(r, old) && !core.Eq(old[n-k:n], cs.Arr[n-k:n]) {
+			c.Count("unspecified_stale_tail_changed") // the vacated cells are no longer elements of the slice
 		} else if !same(r, old) && !core.Eq(old, cs.Arr) {
-			fail("old backing array modified although the slice moved to a new array")
+			c.Count("unspecified_old_array_written_after_move")
 		}
 	case "Fill":
 		inPlace = true
@@ -472,6 +504,9 @@ func execOpt(c *core.Ctx, cs Case, emit bool) {
 	case "Repeat":
 		if cs.K < 0 {
 			c.Count("invalid_position")
+			if kind == "" {
+				fail(fmt.Sprintf("Repeat with negative count %d did not panic", cs.K))
+			}
 			break
 		}
 		if cs.K >= 3 {
@@ -481,6 +516,8 @@ func execOpt(c *core.Ctx, cs Case, emit bool) {
 			fail("panic")
 		} else if obsLen != cs.K || !allEq(vis, v) {
 			fail(fmt.Sprintf("Repeat: not %d times %d", cs.K, v))
+		} else if len(obsArr) != obsLen {
+			c.Count("unspecified_result_cap_exceeds_len")
 		}
 	case "Reverse":
 		inPlace = true
@@ -515,6 +552,9 @@ func execOpt(c *core.Ctx, cs Case, emit bool) {
 		} else if !core.Eq(old, cs.Arr) || !core.Eq(oldB, cs.Vals[:len(oldB)]) {
 			fail("an input slice (or its spare capacity) was modified")
 		} else {
+			if len(obsArr) != obsLen {
+				c.Count("unspecified_result_cap_exceeds_len")
+			}
 			// aliasing probes: write through the result, re-read the inputs; and the other way round
 			scribble(r)
 			if !core.Eq(old, cs.Arr) || !core.Eq(oldB, cs.Vals[:len(oldB)]) {
@@ -530,6 +570,9 @@ func execOpt(c *core.Ctx, cs Case, emit bool) {
 	case "Grow":
 		if cs.K < 0 {
 			c.Count("invalid_position")
+			if kind == "" {
+				fail(fmt.Sprintf("Grow with negative n %d did not panic", cs.K))
+			}
 			break
 		}
 		inPlace = n+cs.K <= capacity
@@ -544,7 +587,7 @@ func execOpt(c *core.Ctx, cs Case, emit bool) {
 		} else if same(r, old) && !core.Eq(old[n+cs.K:], cs.Arr[n+cs.K:]) {
 			fail("spare capacity beyond the appended zero values was modified")
 		} else if !same(r, old) && !core.Eq(old, cs.Arr) {
-			fail("old backing array modified although the slice moved to a new array")
+			c.Count("unspecified_old_array_written_after_move")
 		}
 	}
 	if inPlace {
